@@ -262,8 +262,10 @@ func runC06(c *Ctx) {
 		checkLoopCarriedStructs(c, "C06-R1", []string{"rollback", "updateMinedBalance"})
 		// "once published, no later one reuses its inputs": whatever the wallet creates is recorded
 		checkEveryRelevantTxIsRecorded(c, "C06-R1")
+		checkUnlockHoldSpansCreation(c, "C06-R4")
 		// "not leased" is read from the lease bucket: a lease ends only by its owner, its expiry or a confirmed spend
 		// (C12-R5's rules) — not when an unconfirmed spend is recorded, which can be forgotten again
+		c.Borrow(runC12, "C12-R4", "C06-R1", func(k string) bool { return strings.HasPrefix(k, "lease-release-per-input") })
 		c.Borrow(runC12, "C12-R5", "C06-R1", func(k string) bool {
 			return strings.HasPrefix(k, "lease-released-only-by-owner-expiry-or-confirmed-spend") || strings.HasPrefix(k, "lease-bucket-writer")
 		})
